@@ -9,6 +9,7 @@
 import json
 import os
 import re
+import sys
 
 import vlib
 from vlib import TieBroken, MachineryFault
@@ -1019,6 +1020,311 @@ def check_c15(run, replay):
     fam.finish(broken)
 
 
+# ---------------------------------------------------------------- C18
+
+def check_c18(run, replay):
+    import random as _r
+    import shutil
+    run.trusted = vlib.BASE_TRUST + ["the operating system's directory listing and file reading (std::fs) are an oracle, not modelled",
+                                     "coq/theories/Dir.v: abstract model of parse_dir over a listing"]
+    gv, gm, _ = prepare(run)
+    if replay:
+        print("replay: re-run the check; the directory images are rebuilt from the seed recorded in the replay file")
+        return
+    broken = prove(run, "theories/props/C18.v")
+    rng = _r.Random(seed_of(run) ^ 0xd1)
+    base = os.path.join(vlib.WORK, "dirs")
+    shutil.rmtree(base, ignore_errors=True)
+    os.makedirs(base)
+    progs, hit, labels = pfam.gen_programs(seed_of(run), 60, budgets=(8, 15, 25))
+    valid_srcs = [pfam.gogen.render(p.tokens, r, "newlines") for r, p in progs]
+    ndirs = budget(run, 120, 1200)
+    images = []
+    for di in range(ndirs):
+        d = os.path.join(base, "d%04d" % di)
+        os.makedirs(d)
+        entries = []
+        nfiles = rng.randrange(9)
+        fault = rng.choice([None, None, None, "utf8", "symlink", "damaged", "missingdir"])
+        for fi in range(nfiles):
+            ext = rng.choice([".go", ".go", ".go", ".txt", ".GO", ".go.bak", "", ".gox"])
+            stem = rng.choice(["a", "b", "main", "x_test", "é", ".hidden", "c d"]) + str(fi)
+            name = stem + ext
+            pkg = rng.choice(["p", "q", "main", "p"])
+            src = rng.choice(valid_srcs)
+            src = re.sub(r"^(\s*)package\s+\S+", lambda m: m.group(1) + "package " + pkg, src, count=1)
+            if not re.match(r"\s*package\s", src):
+                src = "package %s\n" % pkg
+            bom = rng.random() < 0.25
+            data = (b"\xef\xbb\xbf" if bom else b"") + src.encode("utf8")
+            kind = "valid"
+            if fault and fi == nfiles - 1 - rng.randrange(1 + nfiles // 2) and ext == ".go":
+                if fault == "utf8":
+                    data = b"package p\nvar s = \"\xff\xfe\"\n"
+                    kind = "utf8"
+                elif fault == "damaged":
+                    data = src.encode("utf8") + b"\n)\n"
+                    kind = "damaged"
+                elif fault == "symlink":
+                    kind = "symlink"
+            path = os.path.join(d, name)
+            if kind == "symlink":
+                os.symlink(os.path.join(d, "no-such-target"), path)
+            else:
+                with open(path, "wb") as f:
+                    f.write(data)
+            entries.append({"name": name, "kind": kind, "bom": bom, "ext_go": name.endswith(".go") and os.path.splitext(name)[1] == ".go" and os.path.splitext(name)[0] != "",
+                            "text": data.decode("utf8", "replace")})
+        if rng.random() < 0.3:
+            os.makedirs(os.path.join(d, "subdir"))
+        target = d if fault != "missingdir" else os.path.join(d, "does-not-exist")
+        images.append({"dir": target, "entries": entries, "fault": fault})
+    lines = vlib.run_records(gv, "dir", [im["dir"] for im in images])
+    # expectation from in-memory parsing of the .go files' contents (BOM removed)
+    mem_inputs, owners = [], []
+    for ii, im in enumerate(images):
+        for e in im["entries"]:
+            if e["ext_go"] and e["kind"] in ("valid", "damaged"):
+                t = e["text"]
+                mem_inputs.append(t[1:] if t.startswith("\ufeff") else t)
+                owners.append((ii, e["name"]))
+    mem_impl = vlib.run_records(gv, "parse", mem_inputs)
+    mem_model = vlib.run_records(gm, "parse", mem_inputs)
+    run.oblige("correspondence: crate == extracted model on the file contents", mem_impl == mem_model)
+    if mem_impl != mem_model:
+        broken.append(("correspondence", "crate and model differ on file contents"))
+    mem = {}
+    for (ii, name), l in zip(owners, mem_impl):
+        mem[(ii, name)] = l
+    import hashlib
+
+    def fnv(line):
+        h = 0xcbf29ce484222325
+        for b in line.encode("utf8"):
+            h ^= b
+            h = (h * 0x100000001b3) & 0xFFFFFFFFFFFFFFFF
+        return "%016x" % h
+    nviol = 0
+    stats = {"dirs": ndirs, "ok": 0, "err": 0, "faults": {}}
+    for ii, (im, line) in enumerate(zip(images, lines)):
+        stats["faults"][str(im["fault"])] = stats["faults"].get(str(im["fault"]), 0) + 1
+        gof = [e for e in im["entries"] if e["ext_go"]]
+        bad = [e for e in gof if e["kind"] in ("utf8", "symlink") or
+               (e["kind"] in ("valid", "damaged") and not mem[(ii, e["name"])].startswith("OK "))]
+        msg = None
+        if im["fault"] == "missingdir":
+            if not line.startswith("ERR io"):
+                msg = "nonexistent directory: expected a gosyn::Error::IO, got %s" % line[:80]
+        elif bad:
+            if line.startswith("OK") or "untyped" in line:
+                msg = "a .go file cannot be read/decoded/parsed (%s) but parse_dir returned %s" % (bad[0]["name"], line[:80])
+            else:
+                # the error must be the one of some bad file
+                okerr = False
+                for e in bad:
+                    if e["kind"] in ("utf8", "symlink"):
+                        okerr = okerr or line.startswith("ERR io")
+                    else:
+                        want = mem[(ii, e["name"])]
+                        okerr = okerr or (line.startswith(want) and ("path=" + pfam_esc(os.path.join(im["dir"], e["name"]))) in line)
+                if not okerr:
+                    msg = "parse_dir's error is not the error of one of the bad files: %s" % line[:120]
+        else:
+            if not line.startswith("OK"):
+                msg = "all .go files are fine but parse_dir failed: %s" % line[:100]
+            else:
+                want = {}
+                for e in gof:
+                    l = mem[(ii, e["name"])]
+                    pk = pfam.tree_of(l).kids[0]
+                    pkn = pfam.unesc([a for a in pk.attrs if a.startswith("s:")][0][2:])
+                    want.setdefault(pkn, []).append("%s#%s#%s" % (pfam_esc(os.path.join(im["dir"], e["name"])), pfam_esc(pkn), fnv(l)))
+                exp = "OK " + " ; ".join("pkg=%s dir=%s files=[%s]" % (pfam_esc(k), pfam_esc(im["dir"]), " ".join(sorted(v)))
+                                         for k, v in sorted(want.items()))
+                if line.strip() != exp.strip():
+                    msg = "parse_dir result differs from grouping the in-memory parses: got %s | expected %s" % (line[:300], exp[:300])
+        stats["ok" if line.startswith("OK") else "err"] += 1
+        if msg:
+            nviol += 1
+            if nviol <= 3:
+                run.violation({"kind": "impl-vs-spec", "what": "parse_dir", "oracle": msg, "dir_image": im["entries"], "fault": im["fault"],
+                               "impl": line[:2000]})
+    # parse_file == parse_source on the contents, path recorded
+    fl_inputs = [os.path.join(im["dir"], e["name"]) for ii, im in enumerate(images) for e in im["entries"]
+                 if e["ext_go"] and e["kind"] in ("valid", "damaged") and im["fault"] != "missingdir"]
+    fl_keys = [(ii, e["name"]) for ii, im in enumerate(images) for e in im["entries"]
+               if e["ext_go"] and e["kind"] in ("valid", "damaged") and im["fault"] != "missingdir"]
+    fl = vlib.run_records(gv, "file", fl_inputs)
+    for pth, key, l in zip(fl_inputs, fl_keys, fl):
+        want = mem[key]
+        if want.startswith("OK "):
+            ok = l == "OK path=%s %s" % (pfam_esc(pth), want[3:])
+        else:
+            ok = l == "%s path=%s" % (want, pfam_esc(pth))
+        if not ok:
+            nviol += 1
+            if nviol <= 3:
+                run.violation({"kind": "impl-vs-spec", "what": "parse_file", "oracle": "parse_file differs from parse_source on the contents "
+                               "(BOM removed) with the path recorded", "input": pth, "impl": l[:1500], "expected": want[:1500]})
+    shutil.rmtree(base, ignore_errors=True)
+    run.cov["evaluations"] = ndirs + len(fl_inputs) + len(mem_inputs)
+    run.cov["distinct_nontrivial"] = sum(1 for im in images if any(e["ext_go"] for e in im["entries"]))
+    run.cov["rule"] = ("real temporary directories with 0-8 entries: random names and extensions (.go, .txt, .GO, .go.bak, none, .gox, hidden, "
+                       "non-ASCII, blanks), package names, BOMs, generated valid contents, and one injected fault per directory in half of "
+                       "them {invalid UTF-8, dangling symlink named like a .go file, damaged contents, nonexistent directory}, plus a "
+                       "subdirectory; parse_dir's result is compared with grouping, by package name, the in-memory parses of the regular "
+                       ".go files (crate == model on those), errors must be gosyn::Error values of one of the bad files; parse_file on every "
+                       "file is compared with parse_source on its contents; non-trivial = directories with at least one .go entry")
+    run.cov["samples"] = [[e["name"] + ":" + e["kind"] for e in im["entries"]] for im in images[:5]]
+    run.extra["stats"] = stats
+    conclude(run, broken)
+
+
+def pfam_esc(s):
+    out = []
+    for c in s:
+        u = ord(c)
+        if 33 <= u <= 126 and c not in "\\()":
+            out.append(c)
+        else:
+            out.append("\\u{%x}" % u)
+    return "".join(out)
+
+
+# ---------------------------------------------------------------- C19
+
+def state_inventory():
+    """global / shared mutable state in the crate's non-test sources"""
+    found = []
+    pat = re.compile(r"\bstatic\s+mut\b|\bstatic\s+[A-Z_]+\s*:|thread_local!|lazy_static!|\bOnceCell\b|\bOnceLock\b|\bLazyLock\b|\bLazy<|"
+                     r"\bRefCell\b|\bCell<|\bUnsafeCell\b|\bMutex\b|\bRwLock\b|\bAtomic[A-Z]\w*\b|\bstd::env::|\bSystemTime\b|\bInstant\b|\brand::")
+    for f in sorted(os.listdir(os.path.join(vlib.REPO, "src"))):
+        if not f.endswith(".rs"):
+            continue
+        src = open(os.path.join(vlib.REPO, "src", f)).read()
+        cut = src.find("#[cfg(test)]")
+        if cut >= 0:
+            src = src[:cut]
+        src = re.sub(r"//[^\n]*", "", src)
+        for i, ln in enumerate(src.splitlines(), 1):
+            if pat.search(ln):
+                found.append("%s:%d: %s" % (f, i, ln.strip()[:100]))
+    return found
+
+
+def check_c19(run, replay):
+    run.trusted = vlib.BASE_TRUST + ["thread schedules are produced by the OS: a Gallina model cannot exhibit them"]
+    gv, gm, _ = prepare(run)
+    if replay:
+        replay_parse(run, replay, gv, gm)
+        return
+    broken = prove(run, "theories/props/C19.v")
+    inv = state_inventory()
+    run.oblige("inventory: no static mut / thread_local / lazy static / interior mutability / clock / environment in src/*.rs (non-test)", not inv)
+    if inv:
+        broken.append(("state-inventory", "\n".join(inv)))
+    progs, hit, labels = pfam.gen_programs(seed_of(run), budget(run, 250, 1500))
+    cases = pfam.valid_cases(progs, ("random", "comments")) + pfam.mutant_cases(progs, 3) + pfam.soup_cases(seed_of(run), 300)
+    srcs = [c.src for c in cases]
+    rounds = budget(run, 2, 6)
+    total_exec = 0
+    for r in range(rounds):
+        rc, out, err = vlib.sh([gv, "threads", "16"], input=vlib.frame(srcs), timeout=3000)
+        if rc != 0:
+            raise TieBroken("threads run of the harness died", err[-2000:])
+        ls = out.split("\n")
+        summ = [l for l in ls if l.startswith("THREADS ")][0]
+        base = [l for l in ls if l and not l.startswith("THREADS ")]
+        m = re.search(r"executions=(\d+) differing=(\d+) repeat_differing=(\d+) first=(\S+)", summ)
+        total_exec += int(m.group(1))
+        if int(m.group(2)) or int(m.group(3)):
+            i = int(m.group(4)) if m.group(4) != "-" else 0
+            run.violation({"kind": "impl-vs-spec", "what": "a concurrent or repeated parse gave a different result than the sequential baseline",
+                           "input": srcs[i], "summary": summ})
+            break
+        if r == 0:
+            model = vlib.run_records(gm, "parse", srcs)
+            diff = [i for i, (a, b) in enumerate(zip(base, model)) if a != b]
+            run.oblige("correspondence: sequential baseline of the crate == extracted model", not diff and len(base) == len(model))
+            if diff or len(base) != len(model):
+                run.violation({"kind": "correspondence-broken", "what": "sequential baseline differs from the model",
+                               "examples": [{"input": srcs[i], "impl": base[i][:500], "model": model[i][:500]} for i in diff[:3]]}, no_input=True)
+    run.cov["evaluations"] = total_exec
+    run.cov["distinct_nontrivial"] = len(set(srcs))
+    run.cov["rule"] = ("%d rounds of 16 threads, each thread parsing all %d inputs (generated valid programs in two layouts, token mutants, "
+                       "token soup) in its own order while the others run; every result (canonical tree or error line) is compared with a "
+                       "sequential single-thread baseline of the same process, a second sequential pass checks repeated parses, and the "
+                       "baseline is compared with the extracted model; non-trivial = distinct inputs" % (rounds, len(srcs)))
+    run.cov["samples"] = srcs[:3]
+    conclude(run, broken)
+
+
+# ---------------------------------------------------------------- C20
+
+def check_c20(run, replay):
+    run.trusted = vlib.BASE_TRUST + ["serde's derive expansion is trusted to implement serde's documented data model (modelled in Serde.v)",
+                                     "tools/regen_schema.py: translator from src/ast.rs, src/token.rs to coq/gen/GenSchema.v"]
+    gv, gm, _ = prepare(run)
+    if replay:
+        replay_parse(run, replay, gv, gm)
+        return
+    rc, out, err = vlib.sh([sys.executable, os.path.join(vlib.ROOT, "tools", "regen_schema.py"), "--check", "--out", os.path.join(vlib.WORK, "GenSchema.check.v")], timeout=300)
+    run.oblige("translator: src/ast.rs + src/token.rs -> gen/GenSchema.v (every construct understood, no serde attribute, both derives)", rc == 0)
+    broken = []
+    if rc != 0:
+        broken.append(("regen_schema", (out + err)[-3000:]))
+    broken += prove(run, "theories/props/C20.v", gen_targets=["gen/GenSchema.vo"])
+    gvs = vlib.build_harness("release", hooks=True, features=("serde",))
+    gvoff = vlib.build_harness("release", hooks=False)
+    gvoffs = vlib.build_harness("release", hooks=False, features=("serde",))
+    progs, hit, labels = pfam.gen_programs(seed_of(run), budget(run, 250, 2000))
+    cases = pfam.valid_cases(progs, ("random", "comments")) + pfam.mutant_cases(progs, 4) + pfam.soup_cases(seed_of(run), budget(run, 500, 5000))
+    # deep trees up to and beyond serde_json's recursion limit
+    for n in (10, 40, 57, 58, 59, 60, 63):
+        cases.append(pfam.Case("package p\nfunc f() { x = " + "(" * n + "y" + ")" * n + " }\n", "F-deep"))
+    srcs = [c.src for c in cases]
+    base = vlib.run_records(gv, "parse", srcs)
+    model = vlib.run_records(gm, "parse", srcs)
+    run.oblige("correspondence: crate == extracted model", base == model)
+    if base != model:
+        broken.append(("correspondence", "crate and model differ"))
+    for name, b in (("hooks off", gvoff), ("hooks on + serde", gvs), ("hooks off + serde", gvoffs)):
+        other = vlib.run_records(b, "parse", srcs)
+        diff = [i for i, (x, y) in enumerate(zip(base, other)) if x != y]
+        run.oblige("build '%s' gives the same tree / error as the hooks-on build on every input" % name, not diff)
+        for i in diff[:2]:
+            run.violation({"kind": "impl-vs-spec", "what": "enabling/disabling %s changes the result" % name, "input": srcs[i],
+                           "oracle": "results differ between builds", "impl": other[i][:800], "baseline": base[i][:800]})
+    rt = vlib.run_records(gvs, "serde", srcs)
+    n_rt = 0
+    for c, l, b in zip(cases, rt, base):
+        if not b.startswith("OK "):
+            continue
+        n_rt += 1
+        m = re.match(r"RT depth=(\d+) same_json=(\d) same_tree=(\d) (.*)$", l)
+        if m and m.group(2) == "1" and m.group(3) == "1" and m.group(4) == b:
+            continue
+        d = re.search(r"depth=(\d+)", l)
+        if l.startswith("DE-ERR") and d and int(d.group(1)) >= 128 and "recursion limit" in pfam.unesc(l):
+            k = [k for k in known_entries("C20") if k["id"] == "KF-37"]
+            if k:
+                run.known_finding("KF-37: %s" % k[0]["what"])
+                continue
+        run.violation({"kind": "impl-vs-spec", "what": "serde round trip", "input": c.src, "oracle": "serialise / deserialise / serialise again "
+                       "does not reproduce the tree: %s" % l[:200], "impl": l[:1500]})
+        if len(run.violations) > 4:
+            break
+    run.cov["evaluations"] = 4 * len(srcs) + n_rt
+    run.cov["distinct_nontrivial"] = n_rt
+    run.cov["rule"] = ("generated valid programs in two layouts, token mutants, token soup and parenthesis nests of depth 10..63: every accepted "
+                       "tree is serialised with serde_json, deserialised, serialised again (identical JSON required) and walked again (identical "
+                       "canonical tree required); the same inputs are parsed by four builds of the crate {hooks on, hooks off} x {default, serde} "
+                       "whose canonical results must be identical; the serde schema of ast.rs/token.rs is regenerated and proved well-formed "
+                       "(round trip theorem of Serde.v applies); non-trivial = accepted inputs (one round trip each)")
+    run.cov["samples"] = srcs[:3]
+    conclude(run, broken)
+
+
 def kf21_docs(case, msg, line):
     return msg.startswith("KF-21")
 
@@ -1042,4 +1348,7 @@ REGISTRY = {
     "C14": check_c14,
     "C12": check_c12,
     "C15": check_c15,
+    "C18": check_c18,
+    "C19": check_c19,
+    "C20": check_c20,
 }
